@@ -6,7 +6,7 @@
        the text alone, and the expected parse is emitted for replay on the real str2array;
    (3) si for a grid of x = m*10^e: the decade ladder places the mantissa in [1,1000). *)
 EXTENDS Text, Json
-CONSTANTS MaxD, MaxRows, MaxCols
+CONSTANTS MaxD, MaxRows, MaxCols, Alpha        \* Alpha: the value alphabet (AlphabetFull or AlphabetSmall)
 VARIABLES mode, v, d, arr, style, dtype
 vars == <<mode, v, d, arr, style, dtype>>
 D(neg, int, frac) == [neg |-> neg, int |-> int, frac |-> frac]
@@ -16,7 +16,9 @@ C(x, y, u) == [re |-> x, im |-> y, cplx |-> TRUE, unit |-> u]
 Alphabet == {R(D(FALSE, 0, <<>>)), R(D(FALSE, 1, <<>>)), R(D(FALSE, 10, <<>>)), R(D(TRUE, 2, <<>>)), R(D(FALSE, 1, <<5>>)),
              R(D(TRUE, 0, <<2, 5>>)), C(D(FALSE, 2, <<>>), D(FALSE, 3, <<>>), "j"), C(D(FALSE, 0, <<>>), D(TRUE, 1, <<>>), "i"),
              C(D(FALSE, 0, <<5>>), D(TRUE, 1, <<2, 5>>), "j"), R(D(FALSE, 101, <<>>))}
-Arrays == UNION {[1..r -> [1..c -> Alphabet]] : r \in 1..MaxRows, c \in 1..MaxCols}
+AlphabetFull == Alphabet
+AlphabetSmall == {R(D(FALSE, 1, <<>>)), R(D(FALSE, 10, <<>>)), R(D(TRUE, 0, <<2, 5>>)), C(D(FALSE, 2, <<>>), D(FALSE, 3, <<>>), "j"), C(D(FALSE, 0, <<>>), D(TRUE, 1, <<>>), "i")}
+Arrays == UNION {[1..r -> [1..c -> Alpha]] : r \in 1..MaxRows, c \in 1..MaxCols}
 Styles == {"comma", "space", "commaspace"}
 DTypes == {<<>>, <<"bool">>, <<"int">>, <<"float">>, <<"complex">>}
 \* an explicit dtype must be able to hold the values (int only for integer text, bool only for bit text)
